@@ -130,7 +130,10 @@ def opEnc (args : List Sexp) : String :=
       | .error .fuel => "fuel"
       | .ok doc =>
         match flavourOf fmt with
-        | some fl => "ok " ++ toHex (renderRor2 (fl.esc (gens mod)) doc)
+        | some fl =>
+          -- the path writer treats a value written to it directly (an entity key) specially
+          if fl == .path then "ok " ++ toHex (renderRor2Path (fl.esc (gens mod)) doc)
+          else "ok " ++ toHex (renderRor2 (fl.esc (gens mod)) doc)
         | none =>
           if fmt == "json" then "ok " ++ toHex (renderJson doc)
           else if fmt == "pretty" then "ok " ++ toHex (renderPretty 0 doc)
